@@ -34,6 +34,16 @@ func runC01(r *Run) {
 		Spec{Name: "arr-small-T32768-L3", Kind: "arr-small", T: 32768, L: 3, Classes: []string{"t", "limA", "limA+"}, Oracles: or},
 		Spec{Name: "arr-nodedup-T256", Kind: "arr-small", T: 256, L: ndL, Classes: []string{"limA", "A:t", "s:A:limA-,limA-"}, Oracles: or, Depth: nd, Extra: map[string]int{"nodedup": 1}},
 	)
+	// arrays that are themselves elements of an array: every array operation incl. type changes through the
+	// child's handle, with commit / reopen / cache-drop events inside the history (an array decoded from its
+	// parent's register must still behave as a sequence with its own type)
+	specs = append(specs, Spec{Name: "arr-of-arrays-T256", Kind: "nested", T: 256, Keys: 2, Classes: []string{"t", "h", "A"}, Oracles: []string{"sem", "reopen", "events"},
+		Extra: map[string]int{"rootmap": 0, "lr": 2, "lc": 2, "maxc": 3, "depth": 2}})
+	evd := 6
+	if r.Thorough() {
+		evd = 8
+	}
+	specs = append(specs, Spec{Name: "arr-events-T256-L5", Kind: "arr-small", T: 256, L: 5, Classes: []string{"t", "limA", "limA+"}, Oracles: []string{"twin", "ev:commit1", "ev:creopen"}, Depth: evd})
 	r.ExploreSpecs(specs)
 	// trajectories: multi-level trees, depth-bounded neighbourhoods of every trajectory state
 	tor := []string{"sem", "oob", "reopen"}
